@@ -138,7 +138,7 @@ def c13(ctx):
 def _observe(ctx, props):
     dev, rel = ctx.build("dev"), ctx.build("release")
     out = ctx.path("observe.nd")
-    depth, limits = (7, "012") if ctx.thorough else (6, "01")
+    depth, limits = (7, "012") if ctx.thorough else (5, "01")
     ctx.model_check("MC_Observe", env={"DEPTH": depth, "LIMITS": limits, "OUT": out}, workers=8, timeout=1500)
     for b in (dev, rel):
         ctx.replay(b, "observe", out, props, label="observe-" + os.path.basename(b))
@@ -327,7 +327,8 @@ def c11(ctx):
 def c12(ctx):
     size = "full" if ctx.thorough else "small"
     _scripts(ctx, "MC_BlockMulti", {"MODE": "iso", "SIZE": size, "DEPTH": 12}, {"C12"}, "iso")
-    _block_traces(ctx, ["isolation", "hostile"], {"C12"})
+    _block_traces(ctx, ["isolation"], {"C12"})
+    _block_traces(ctx, ["hostile"], {"C12"}, bins=None if ctx.thorough else (ctx.build("dev"),))
 
 
 def c20(ctx):
